@@ -26,7 +26,8 @@ MANIFEST = dict(
          "delivery of uniquely tagged reports.",
     note="Partial: scheduler / memory model / timers are runtime behaviour. Half of the stress schedules include the real "
          "periodic-report server (millisecond tickers, registration churn, driver Close right after Stop as pkg/app does); the "
-         "netlink listener goroutine is exercised by the full-stack modes of C13/C18, not under the race detector. ",
+         "netlink listener goroutine (buffnetlink.ServeMsg: multicast batches naming several sessions) runs under the race detector "
+         "in the listener phase, with the exactly-once / intact rule of the full-stack usage monitor. ",
     technique="Coq: generated confinement table + interleaving model proofs; Go race detector stress as validation / search",
     design="4/C17")
 
@@ -63,7 +64,9 @@ def run(ctx, replay=None):
     if info["tie_broken"]:
         ctx.violation({"property": "C17", "broken": "stress harness no longer builds against the tree", "log": info["tie_broken"][-2000:]}, no_input=True)
         return ctx.finish(coverage, [])
-    cases = json.load(open(replay))["cases"] if replay else gen_cases(ctx)
+    rp = json.load(open(replay)) if replay else None
+    fs_replay = [rp["case"]] if rp and str(rp.get("mode", "")).startswith("usagefs") and "case" in rp else None
+    cases = ([] if fs_replay else rp["cases"]) if replay else gen_cases(ctx)
     inp = os.path.join(ctx.workdir, "stress-in.json")
     outp = os.path.join(ctx.workdir, "stress-out.json")
     found = False
@@ -131,6 +134,46 @@ def run(ctx, replay=None):
                 ctx.violation({"property": "C17", "what": "Start followed %s microseconds later by Stop: %s (round %s)" % (
                     ss.get("pause_us"), ss.get("what") or ("fatal: " + ss.get("fatal", "")), ss.get("stuck_at")), "mode": "startstop",
                     "case": {"seed": ctx.seed, "rounds": rounds}, "result": ss})
+    # the netlink listener goroutine under the race detector: multicast report batches naming several sessions at once go
+    # through the REAL buffnetlink.ServeMsg -> NotifySessReport -> event loop -> Session Report Requests, the loop serving
+    # other traffic meanwhile; every kernel report must arrive exactly once at the owning SMF (usage_fullstack.monitor)
+    if not replay or fs_replay:
+        from checks import usage_fullstack as uf
+        stats = uf.new_stats()
+        rnd2 = random.Random(ctx.seed + 1717)
+        fs_cases = fs_replay or (uf.directed() + [uf.gen_case(rnd2, stats) for _ in range(40 if ctx.tier == "quick" else 600)])
+        inp3 = os.path.join(ctx.workdir, "fs-in.json")
+        outp3 = os.path.join(ctx.workdir, "fs-out.json")
+        json.dump(fs_cases, open(inp3, "w"))
+        env = dict(common.GOENV, GORACE="halt_on_error=0 exitcode=66")
+        try:
+            p = subprocess.run([info["harness"], "usagefs", inp3, outp3], capture_output=True, text=True, env=env, timeout=900)
+            rc, err = p.returncode, p.stderr
+        except subprocess.TimeoutExpired:
+            rc, err = -9, "timeout (hang)"
+        fs = json.load(open(outp3))["cases"] if os.path.exists(outp3) else None
+        coverage["listener_cases_under_race_detector"] = len(fs_cases)
+        coverage["listener_multicast_reports"] = stats["reports_injected"]
+        if not found:
+            bad = None
+            if fs is not None:
+                for c, o in zip(fs_cases, fs):
+                    f = uf.monitor(c, o)
+                    if f:
+                        bad = (c, o, f)
+                        break
+            if bad:
+                found = True
+                ctx.violation({"property": "C17", "what": "kernel reports handed to the listener are not delivered exactly once, intact: step %d: %s" % bad[2][0],
+                               "mode": "usagefs (race build)", "case": bad[0], "implementation_trace": bad[1],
+                               "race_report": err[-3000:] if "DATA RACE" in err else "",
+                               "replay_cmd": "python3 check.py C17 --replay <this file>"})
+            elif "DATA RACE" in err:
+                found = True
+                ctx.violation({"property": "C17", "what": "data race reported by the race detector (netlink listener -> event loop)", "mode": "usagefs (race build)",
+                               "cases_seed": ctx.seed + 1717, "race_report": err[-3000:]})
+            elif fs is None or rc not in (0, 66):
+                ctx.violation({"property": "C17", "broken": "listener phase did not run (rc %s): %s" % (rc, err[-800:])}, no_input=True)
     coverage["slowest_shutdown_ms"] = max([o.get("shutdown_ms", 0) for o in results] or [0])
     coverage["evaluations"] = len(cases)
     coverage["distinct_nontrivial"] = len(nontrivial)
